@@ -321,6 +321,67 @@ func c02FetchInner(cl *Client, sp *c02Spec, mode c02Mode, url string, dir string
 	return c02ViewString(resp.StatusCode, resp.Header, resp.Trailer, body, end), extraOK
 }
 
+// c02Earlier performs, on the SAME client (hence normally the same connection) and right before
+// the case under test, an exchange whose outcome is not judged: a response the caller abandons
+// after the first byte, or (limit > 0) a response whose header list exceeds the limit the
+// client advertised and is refused. Whatever it leaves behind in the connection must not leak
+// into the next response. Returns the kind for the histogram ("" = none).
+func c02Earlier(s *verifh.Session, cl *Client, put func(path string, sp *c02Spec), del func(path string), base string, id int, limit int) string {
+	r := s.Rand()
+	pick := r.Intn(8)
+	if pick > 1 || (pick == 1 && limit == 0) {
+		return ""
+	}
+	path := "/e" + strconv.Itoa(id)
+	sp := &c02Spec{status: 200}
+	kind := "abandoned"
+	if pick == 1 {
+		kind = "oversized-header-list"
+		total, want := 0, limit+limit/6+r.Intn(limit/2)
+		for j := 0; total < want; j++ {
+			v := verifh.RandBytes(r, 300+r.Intn(300), "abcdef0123456789")
+			sp.fields = append(sp.fields, c02Field{"X-Big-" + strconv.Itoa(j), v})
+			total += len(v) + 40
+		}
+		sp.body = "big"
+		sp.writes = []string{"big"}
+	} else {
+		sp.body = verifh.RandBytes(r, 20000+r.Intn(100000), "")
+		sp.declared = r.Intn(2) == 0
+		sp.writes = []string{sp.body}
+	}
+	put(path, sp)
+	defer del(path)
+	done := make(chan struct{})
+	go func() {
+		defer close(done)
+		defer func() { recover() }()
+		resp, err := cl.R().DisableAutoReadResponse().Get(base + path)
+		if err == nil && resp.Response != nil && resp.Body != nil {
+			if kind == "abandoned" {
+				resp.Body.Read(make([]byte, 1))
+			} else {
+				io.Copy(io.Discard, resp.Body)
+			}
+			resp.Body.Close()
+		}
+	}()
+	select {
+	case <-done:
+	case <-time.After(25 * time.Second):
+	}
+	return kind
+}
+
+// c02ClampFields keeps a spec's header list well below a small advertised limit.
+func c02ClampFields(sp *c02Spec) {
+	for i := range sp.fields {
+		if len(sp.fields[i].v) > 120 {
+			sp.fields[i].v = sp.fields[i].v[:120]
+		}
+	}
+}
+
 // ---------------------------------------------------------------------------------------
 // HTTP/1.1: raw TCP peer writing a generated byte stream in a generated segmentation.
 // ---------------------------------------------------------------------------------------
@@ -489,7 +550,7 @@ func c02H1Serialize(s *verifh.Session, sp *c02Spec) (wire string, framing string
 
 func TestVerif_C02_e2eh1(t *testing.T) {
 	s := verifh.New(t, "C02", "e2eh1",
-		"real client <-> raw TCP peer on loopback writing a generated HTTP/1.x response in a generated segmentation: 0..3 interim 1xx, final status {2xx,3xx,4xx,5xx,204,304,205}, GET/HEAD, 0..5 X- fields (repeated names, mixed case, OWS, long values) + Content-Type, framing {Content-Length, chunked (+trailers, extensions), until-close (1.0/1.1)}, body lengths {0,1,2,100,4095..4097,16383..16385,65535..65537, random <5000, 1 MiB+-1} (random or CR/LF/hex alphabet), keep-alive reuse across cases; modes {auto-read, re-read after auto-read, streaming with read sizes 1/7/512/4096/65536, SetOutput, SetOutputFile, DisableAutoReadResponse+ToBytes}; view = status, X-/Content-Type fields, trailers, body; compared with the origin's spec (oracle) and with the Lean model's reading of the same byte stream (bodies <= 70000); non-trivial = non-empty delivered body")
+		"real client <-> raw TCP peer on loopback writing a generated HTTP/1.x response in a generated segmentation: 0..3 interim 1xx, final status {2xx,3xx,4xx,5xx,204,304,205}, GET/HEAD, 0..5 X- fields (repeated names, mixed case, OWS, long values) + Content-Type, framing {Content-Length, chunked (+trailers, extensions), until-close (1.0/1.1)}, body lengths {0,1,2,100,4095..4097,16383..16385,65535..65537, random <5000, 1 MiB+-1} (random or CR/LF/hex alphabet), keep-alive reuse across cases, now and then preceded on the same client by a response the caller abandons after one byte; modes {auto-read, re-read after auto-read, streaming with read sizes 1/7/512/4096/65536, SetOutput, SetOutputFile, DisableAutoReadResponse+ToBytes}; view = status, X-/Content-Type fields, trailers, body; compared with the origin's spec (oracle) and with the Lean model's reading of the same byte stream (bodies <= 70000); non-trivial = non-empty delivered body")
 	r := s.Rand()
 	peer := c02NewH1Peer(t)
 	defer peer.ln.Close()
@@ -508,6 +569,18 @@ func TestVerif_C02_e2eh1(t *testing.T) {
 			if r.Intn(3) == 0 {
 				cl.GetTransport().DisableAutoDecode()
 			}
+		}
+		if k := c02Earlier(s, cl, func(path string, esp *c02Spec) {
+			ew, _, eclose := c02H1Serialize(s, esp)
+			peer.mu.Lock()
+			peer.cases[path] = &c02H1Wire{segs: []string{ew}, closeAfter: eclose}
+			peer.mu.Unlock()
+		}, func(path string) {
+			peer.mu.Lock()
+			delete(peer.cases, path)
+			peer.mu.Unlock()
+		}, base, c, 0); k != "" {
+			s.Count("earlier:" + k)
 		}
 		sp := c02GenSpec(s, false, true)
 		mode := c02GenMode(s)
